@@ -101,6 +101,9 @@ def gen_phase(r, np, W, kind, opid0):
                         seed=r.below(1 << 30) + 1)
 
     ph = dict(kind=kind, init=r.below(1 << 30) + 1, roles=[[list(s) for s in segs] for segs in roles])
+    if kind == 'fence':
+        ph['fassert'] = 1 if r.chance(0.8) else 0
+    lockmode = r.choice(['mixed', 'mixed', 'excl', 'shared']) if kind == 'lock' else None
     if kind in ('fence', 'pscw'):
         group = [0] * (np * np)
         if kind == 'pscw':
@@ -136,7 +139,11 @@ def gen_phase(r, np, W, kind, opid0):
             for _ in range(r.randint(0, 3)):
                 t = r.below(np)
                 excl = 1 if r.chance(0.55) else 0
+                if lockmode != 'mixed':
+                    excl = 1 if lockmode == 'excl' else 0
                 if excl and nexcl[t] >= 4:
+                    if lockmode == 'excl':
+                        continue
                     excl = 0
                 nexcl[t] += excl
                 new(rk, what='lock', target=t, excl=excl)
@@ -183,10 +190,8 @@ class C34(dst.Check):
         plat, hosts = mc.gen_platform(Rng(seed, 'platform'), np)
         cfg = {}
         kn = Rng(seed, 'knobs')
-        if kn.chance(0.5):
-            a, b = sorted([kn.choice([0, 16, 1024, 65536]), kn.choice([0, 16, 1024, 65536])])
-            cfg['smpi/send-is-detached-thresh'] = b
-            cfg['smpi/async-small-thresh'] = a
+        if kn.chance(0.5):      # async-small-thresh stays 0: see checks/c29.py (point-to-point ordering defect, C28)
+            cfg['smpi/send-is-detached-thresh'] = kn.choice([0, 16, 1024, 65536])
         phases = []
         oid = 0
         for _ in range(r.randint(1, 5)):
@@ -338,7 +343,19 @@ class C34(dst.Check):
                                 sig = '%s:%d' % ('+'.join(kinds), norig)
                                 what += ' (location %d alone is inexplicable)' % l
                                 break
-                        cls = '%s:%s:%s' % (cls, ph['kind'], sig)
+                        kinds = sig.split(':')[0].split('+')
+                        if 'c' in kinds:
+                            cause = 'cas'
+                        elif 'a' in kinds and 'f' in kinds:
+                            cause = 'acc_vs_fetch'
+                        else:
+                            pk = ph['kind']
+                            if pk == 'lock':
+                                ex = set(op['excl'] for ops in ph['ops'].values() for op in ops if op['what'] == 'lock')
+                                pk = 'lock_mixed' if len(ex) > 1 else 'lock_pure'
+                            cause = 'other_' + pk
+                        what += ' [%s]' % sig
+                        cls = '%s:%s' % (cls, cause)
                         viol.append((cls, 'phase %d (%s) target %d: %s; init=%s final=%s ops=%s' % (
                             p, ph['kind'], t, what, {l: init_vals[l] for l in sorted(touched)},
                             {l: data[l] for l in sorted(touched)},
@@ -473,17 +490,41 @@ class C34(dst.Check):
                         yield wp(phs[:i] + [dict(ph, ops=dict(ph['ops'], **{o: new}))] + phs[i + 1:])
 
     def known_matchers(self):
-        def has(plan, pred):
-            return any(pred(op, ph) for ph in plan['phases'] for ops in ph['ops'].values() for op in ops)
-        return {
-            'pscw_phase': lambda plan, cls, msg: any(ph['kind'] == 'pscw' for ph in plan['phases']),
-            'shared_then_exclusive_lock': lambda plan, cls, msg: has(plan, lambda op, ph: op['what'] == 'lock' and op['excl']) and
-            has(plan, lambda op, ph: op['what'] in ('lock',) and not op['excl'] or op['what'] == 'lockall'),
-            'lock_phase': lambda plan, cls, msg: any(ph['kind'] in ('lock', 'lockall') for ph in plan['phases']),
-            'accumulate_self': lambda plan, cls, msg: any(op['what'] in ('acc', 'gacc', 'fop') and str(op['target']) == o
-                                                        for ph in plan['phases'] for o, ops in ph['ops'].items() for op in ops),
-            'any': lambda plan, cls, msg: True,
-        }
+        def ops(plan):
+            for ph in plan['phases']:
+                for o, lst in ph['ops'].items():
+                    for op in lst:
+                        yield ph, o, op
+
+        def has_cas(plan, cls, msg):
+            return any(op['what'] == 'cas' for _, _, op in ops(plan))
+
+        def has_acc_and_fetch(plan, cls, msg):
+            return any(op['what'] == 'acc' for _, _, op in ops(plan)) and \
+                any(op['what'] in ('gacc', 'fop') for _, _, op in ops(plan))
+
+        def has_excl_lock(plan, cls, msg):
+            return any(op['what'] == 'lock' and op['excl'] for _, _, op in ops(plan))
+
+        def has_excl_and_shared(plan, cls, msg):
+            return has_excl_lock(plan, cls, msg) and any(op['what'] == 'lock' and not op['excl'] for _, _, op in ops(plan))
+
+        def fence_noassert_then_pscw(plan, cls, msg):
+            seen = False
+            for ph in plan['phases']:
+                if ph['kind'] == 'fence' and not ph.get('fassert'):
+                    seen = True
+                if ph['kind'] == 'pscw' and seen:
+                    return 'MPI_ERR_WIN' in msg or 'already opened' in msg
+            return False
+
+        def pscw_nodetach(plan, cls, msg):
+            return any(ph['kind'] == 'pscw' for ph in plan['phases']) and \
+                str(plan['cfg'].get('smpi/send-is-detached-thresh')) == '0'
+        return dict(has_cas=has_cas, has_acc_and_fetch=has_acc_and_fetch, has_excl_lock=has_excl_lock,
+                    has_excl_and_shared=has_excl_and_shared, fence_noassert_then_pscw=fence_noassert_then_pscw,
+                    pscw_nodetach=pscw_nodetach)
 
 
 CHECK = C34()
+mc.install_proposed_findings()
